@@ -548,7 +548,7 @@ func (w *world) opList(q query) {
 		return
 	}
 	w.line("l "+q.enc(), encRows(rs))
-	if !w.weird && !sameRows(rs, w.expectedList(q)) {
+	if !sameRows(rs, w.expectedList(q)) {
 		w.violate("list:not-the-committed-set", "List differs from the committed, not deleted resources matching the query (in key order)")
 	}
 	switch {
@@ -580,7 +580,7 @@ func (w *world) opListByOwner(id *pbresource.ID) {
 			exp = append(exp, r)
 		}
 	}
-	if !w.weird && !sameRows(rs, sortedByKey(exp)) {
+	if !sameRows(rs, sortedByKey(exp)) {
 		w.violate("listowner:not-the-owned-set", "ListByOwner differs from the committed resources whose owner is exactly this id (uid included)")
 	}
 	if len(rs) > 0 {
@@ -1187,6 +1187,9 @@ func controlledCase(run *hx.Run, r *hx.RNG, n int) {
 		nt++
 	}
 	run.Case(strings.Join(w.ops, "\n"), nt >= 6)
+	if len(w.ops) > 25 {
+		run.Sample(map[string]any{"case": "controlled " + mode, "first_ops": w.ops[:25]})
+	}
 }
 
 // witnessLag replays the lagging-publisher witness of known finding watch:stale-event-after-snapshot.
@@ -1203,6 +1206,7 @@ func witnessLag(run *hx.Run) {
 	w.finish()
 	run.Case(strings.Join(w.ops, "\n"), true)
 	run.Tag("case:witness-lagging-publisher")
+	run.Sample(map[string]any{"case": "witness: publisher lags behind two commits when WatchList runs", "ops": w.ops})
 }
 
 // witnessRestore replays the witness of known finding watch:pre-restore-event-after-snapshot.
@@ -1233,5 +1237,6 @@ func main() {
 		controlledCase(run, run.RNG.Fork(uint64(i)), 60)
 	}
 	concurrentPart(run)
+	servicePart(run)
 	run.Finish()
 }
